@@ -7,6 +7,7 @@ M2/M3: suite expressions x engine x seeded combinations of Rate, Pitch, Volume, 
     and Bookmark; the speech is tokenised (trivial lexer) and TLC runs the pushdown automaton of TTS.tla on the tokens, compares
     the characters with the TTS=None speech and checks bookmark names against the ids of the returned MathML (Trace_TTS.tla)."""
 import json
+import os
 import random
 import re
 import time
@@ -20,6 +21,59 @@ TAG = re.compile(r"""<(/?)([A-Za-z][A-Za-z0-9-]*)((?:\s+[A-Za-z_:][A-Za-z0-9_:.-
 EMPTY_MATH = ["<math><mrow/></math>", "<math><mspace width='1em'/></math>", "<math><mphantom><mi>x</mi></mphantom></math>", "<math><mtext>&#xA0;</mtext></math>",
               "<math><mrow><mrow/><mrow/></mrow></math>", "<math><mi>A</mi><mo>+</mo><mi>B</mi><mi>C</mi></math>",
               "<math><mi>NaCl</mi><mo>+</mo><msub><mi>H</mi><mn>2</mn></msub><mi>O</mi></math>", "<math><mtext>a &lt; b &amp; c</mtext></math>"]
+
+
+ALL_COMMANDS = """
+- name: verif-tts-all
+  tag: mtext
+  match: "text()='ttsall'"
+  replace:
+  - pitch:
+      value: {P}
+      replace: [t: "one"]
+  - rate:
+      value: {R}
+      replace: [t: "two"]
+  - volume:
+      value: {V}
+      replace: [t: "three"]
+  - gender:
+      value: "female"
+      replace: [t: "four"]
+  - voice:
+      value: "Zira"
+      replace: [t: "five"]
+  - audio:
+      value: "beep.mp4"
+      replace: [t: "six"]
+  - pause: medium
+  - spell: "'ab'"
+  - pronounce: [{text: "seven"}, {ipa: "s\u025Bv\u0259n"}, {sapi5: "s eh v ax n"}, {eloquence: "sEv@n"}]
+  - bookmark: "@id"
+  - t: "eight"
+
+- name: verif-tts-nested
+  tag: mtext
+  match: "text()='ttsnest'"
+  replace:
+  - pitch:
+      value: {P}
+      replace:
+      - t: "a"
+      - rate:
+          value: {R}
+          replace:
+          - voice:
+              value: "David"
+              replace:
+              - gender:
+                  value: "male"
+                  replace: [t: "b", pause: short, t: "c"]
+          - volume:
+              value: {V}
+              replace: [t: "d", pause: long]
+      - t: "e"
+"""
 
 
 def lex(s):
@@ -56,7 +110,9 @@ def config(rng):
             "CapitalLetters_Pitch": rng.choice(["0", "20", "-15"]), "CapitalLetters_Beep": rng.choice(["true", "false"]),
             "CapitalLetters_UseWord": rng.choice(["true", "false"]), "Bookmark": rng.choice(["true", "false"]),
             "SpeechStyle": rng.choice(["ClearSpeak", "SimpleSpeak"]), "Verbosity": rng.choice(["Terse", "Medium", "Verbose"]),
-            "Language": rng.choice(["en", "en", "es", "fi", "sv"])}
+            "Language": rng.choice(["en", "en", "es", "fi", "sv"]),
+            # the engine's voice selection tags (SAPI5 <voice required=...>, SSML <voice name=...>)
+            "Gender": rng.choice(["none", "none", "male", "female"]), "Voice": rng.choice(["none", "none", "Zira", "Microsoft David"])}
 
 
 def run(tier):
@@ -89,6 +145,30 @@ def run(tier):
                     ops.append({"op": "overview"})
                     tags.append(("overview", eng))
         scripts.append({"id": f"cfg{ci}", "ops": ops, "tags": tags, "cfg": cfg, "isolate_on_panic": True})
+    # every speech-engine command a rule can use (pitch, rate, volume, gender, voice, audio, pause, spell, pronounce, bookmark), alone
+    # and nested: the shipped rules use only some of them, so two rules are added to a private copy of the English rules
+    orig = open(os.path.join(C.REPO, "Rules", "Languages", "en", "ClearSpeak_Rules.yaml"), encoding="utf-8").read()
+    at = orig.index("\n- name:")
+    for vi, (pv, rv, vv) in enumerate([(20, 150, 50), (-15, 60, 100), (0, 100, 0)] if tier == "thorough" else [(20, 150, 50)]):
+        extra = ALL_COMMANDS.replace("{P}", str(pv)).replace("{R}", str(rv)).replace("{V}", str(vv))
+        ops = [{"op": "fs_clone_rules"}, {"op": "fs_write", "path": "$RULES/Languages/en/ClearSpeak_Rules.yaml", "content": orig[:at] + extra + orig[at:]},
+               {"op": "set_rules_dir", "dir": "$RULES"}, {"op": "set_pref", "name": "Bookmark", "value": "true" if vi % 2 == 0 else "false"},
+               {"op": "set_pref", "name": "SpeechStyle", "value": "ClearSpeak"}]
+        tags = [None] * len(ops)
+        nhead = len(ops)
+        for e in ["<math><mtext>ttsall</mtext></math>", "<math><mtext>ttsnest</mtext></math>", "<math><mtext>ttsall</mtext><mo>+</mo><mfrac><mtext>ttsnest</mtext><mtext>ttsall</mtext></mfrac></math>",
+                  "<math><msqrt><mtext>ttsnest</mtext></msqrt><mo>=</mo><mtext>ttsall</mtext></math>"]:
+            ops.append({"op": "set_mathml", "mathml": e})
+            tags.append(("set", e))
+            for eng in ("None", "SSML", "SAPI5"):
+                ops.append({"op": "set_pref", "name": "TTS", "value": eng})
+                tags.append(None)
+                ops.append({"op": "speech"})
+                tags.append(("speech", eng))
+                ops.append({"op": "overview"})
+                tags.append(("overview", eng))
+        scripts.append({"id": f"all-commands{vi}", "ops": ops, "tags": tags, "cfg": {"rules": "every engine command, alone and nested", "values": [pv, rv, vv]}, "nhead": nhead,
+                        "isolate_on_panic": True})
     results = C.run_mcv([{"id": s["id"], "ops": s["ops"], "isolate_on_panic": True} for s in scripts], wd, timeout_ms=60000)
     events, back = [], []
     skipped = 0
@@ -137,7 +217,7 @@ def run(tier):
         text = (f"{reason}: TTS={e['engine']} {s['tags'][oi][0]} -> {rr['v'][:300]!r}; preferences {s['cfg']}; expression {expr[:200]}")
         sig = re.sub(r"['\"][^'\"]*['\"]", "''", " ".join(m.group(0) for m in TAG.finditer(rr["v"])))[:0]
         verdict.reject(f"{reason}|{e['engine']}|{','.join(bad_tags)}|{S.fp(expr)}", text,
-                       {"script": [o for o in s["ops"][:len(s['cfg']) + 1]] + [{"op": "set_mathml", "mathml": expr}, {"op": "set_pref", "name": "TTS", "value": e["engine"]}, {"op": s["ops"][oi]["op"]}]},
+                       {"script": [o for o in s["ops"][:s.get("nhead", len(s['cfg']) + 1)]] + [{"op": "set_mathml", "mathml": expr}, {"op": "set_pref", "name": "TTS", "value": e["engine"]}, {"op": s["ops"][oi]["op"]}]},
                        text=json.dumps({"reason": reason, "engine": e["engine"], "tags": bad_tags, "speech": rr["v"][:400], "cfg": s["cfg"]}, ensure_ascii=False))
     rc = verdict.finish(wd)
     tagged = [e for e in events if e["engine"] != "None"]
